@@ -25,9 +25,11 @@ HKeys(S)      == {p[1] : p \in S}
 
 Kinds == {"rest", "rpcs", "rpcc", "fx"}
 
-\* per-call parameters arrive with the reset event
-MInit(ev) ==
-  [ kind |-> ev.kind, tmo |-> ev.tmo, pdl |-> ev.pdl, exempt |-> ev.exempt, s0 |-> ev.s0,
+\* per-call parameters arrive with the reset event.  MInitX: the same with the two facts the
+\* property derives from the call's SETTINGS and REQUEST (below: TmoChoices, ExemptChoices)
+\* supplied by the caller of the operator instead of being read from the event.
+MInitX(ev, tmo, exempt) ==
+  [ kind |-> ev.kind, tmo |-> tmo, pdl |-> ev.pdl, exempt |-> exempt, s0 |-> ev.s0,
     cancelled |-> FALSE,          \* the caller's cancellation was requested
     wk |-> "run",                 \* worker: run | ret | panic | ignore (blocked, ignores ctx)
     committed |-> FALSE, code |-> 200,   \* the worker's own result so far ...
@@ -37,12 +39,63 @@ MInit(ev) ==
     phase |-> "call",             \* call | returned | final | stuck
     snap |-> [code |-> 0, hdr |-> {}, bt |-> <<>>, n |-> 0],   \* what the client had at return
     bad |-> "" ]
+MInit(ev) == MInitX(ev, ev.tmo, ev.exempt)
+
+\* ---------------------------------------------------------------- which timeout applies
+\* "for all timeout settings (global, per-route, per-method, per-call)": a call that arrives with
+\* its settings in layers -- glob: the server / client / engine-wide value, ov: the more specific
+\* one (<<>> when not given, <<d>> when given: rest.WithTimeout(d) of the route group, the
+\* MethodTimeouts entry of the called method, zrpc.WithCallTimeout(d) of this call), mw: the
+\* timeout middleware is switched on -- is owed the timeout the MOST SPECIFIC layer names,
+\* whatever the other layers say.  Values <= 0 mean "no timeout" (0 in m.tmo); for a route,
+\* WithTimeout(d <= 0) is how "not given" is spelled.  Where the statement is silent the set has
+\* two elements: middleware switched off (nothing is promised; applying the timeout anyway only
+\* shrinks deadlines), and a per-method timeout on a zRPC server whose own timeout is 0
+\* (documented as "setting 0 means no timeout" for the whole server).
+Pos(x) == IF x > 0 THEN x ELSE 0
+Layered(ev) == "glob" \in DOMAIN ev
+Specific(ev) ==
+  IF ev.ov = <<>> THEN Pos(ev.glob)
+  ELSE IF ev.kind = "rest" THEN (IF ev.ov[1] > 0 THEN ev.ov[1] ELSE Pos(ev.glob))
+  ELSE Pos(ev.ov[1])
+TmoChoices(ev) ==
+  IF ~Layered(ev) THEN {ev.tmo}
+  ELSE IF ~ev.mw THEN {0, Specific(ev)}
+  ELSE IF ev.kind = "rpcs" /\ ev.ov # <<>> /\ ev.glob <= 0 THEN {0, Specific(ev)}
+  ELSE {Specific(ev)}
+
+\* ---------------------------------------------------------------- which requests are exempt
+\* "websocket-upgrade and event-stream requests are exempt" -- and no others.  A REST request
+\* arrives with what it offers: up / acc = the protocol names of its Upgrade header(s) / the
+\* media types of its Accept header(s), lower-cased, without version or parameters, in order
+\* (<<>>: no such header); upx / accx: the header is literally the single value `websocket` /
+\* `text/event-stream`; conn: a Connection header names `upgrade`.
+\*   must be exempt     the canonical forms: Upgrade: websocket with Connection: Upgrade,
+\*                      Accept: text/event-stream
+\*   may be exempt      websocket / event-stream is among the offers, spelled or combined some
+\*                      other way (WebSocket, "websocket, h2c", "text/event-stream, */*", a
+\*                      websocket upgrade without the Connection header): the statement does not
+\*                      say how the request is recognised
+\*   must NOT be exempt everything else, in particular a request that merely offers some other
+\*                      upgrade (h2c, TLS/1.0) or accepts other media types: it is owed the
+\*                      deadline and the timeout result like any request.
+Offered(ev) == "up" \in DOMAIN ev
+SeqRange(s) == {s[i] : i \in DOMAIN s}
+WsToken  == "websocket"
+SseToken == "text/event-stream"
+MustExempt(ev) == (ev.upx /\ ev.conn) \/ ev.accx
+MayExempt(ev)  == WsToken \in SeqRange(ev.up) \/ SseToken \in SeqRange(ev.acc)
+ExemptChoices(ev) ==
+  IF ~Offered(ev) THEN {ev.exempt}
+  ELSE IF MustExempt(ev) THEN {TRUE}
+  ELSE IF MayExempt(ev) THEN {TRUE, FALSE}
+  ELSE {FALSE}
 
 Fail(m, clause) == IF m.bad = "" THEN [m EXCEPT !.bad = clause] ELSE m
 
-\* wrappers that run the work inline: the client interceptor, TimeoutHandler(d <= 0),
-\* and the exempt (websocket upgrade / event-stream) REST requests
-Inline(m) == m.kind = "rpcc" \/ m.exempt \/ (m.kind = "rest" /\ m.tmo = 0)
+\* wrappers that run the work inline: the client interceptor, TimeoutHandler(d <= 0), a zRPC
+\* server without a timeout, and the exempt (websocket upgrade / event-stream) REST requests
+Inline(m) == m.kind = "rpcc" \/ m.exempt \/ (m.kind \in {"rest", "rpcs"} /\ m.tmo = 0)
 
 \* ---------------------------------------------------------------- DeadlineShrinks
 \* ev.has/ev.dl: ctx.Deadline() inside the work; ev.now: a clock reading taken by the
@@ -137,9 +190,12 @@ OnFinal(m, ev) ==
 
 \* ReturnsWithoutWorker: the driver releases a context-ignoring worker only after the
 \* wrapper returned; "stuck" is recorded when the wrapper had not returned long after the
-\* deadline although only the worker was in its way
+\* deadline although only the worker was in its way (ev.el, where recorded: a clock reading
+\* taken when the driver gave up -- a wrapper is only overdue once the deadline the property
+\* names has passed; a call that has no such deadline may wait for its work for ever)
+Overdue(m, ev) == "el" \notin DOMAIN ev \/ (Due(m) # -1 /\ ev.el > Due(m))
 OnStuck(m, ev) ==
-  IF Inline(m) THEN [m EXCEPT !.phase = "stuck"]
+  IF Inline(m) \/ ~Overdue(m, ev) THEN [m EXCEPT !.phase = "stuck"]
   ELSE Fail([m EXCEPT !.phase = "stuck"], "ReturnsWithoutWorker")
 
 Mon(m, ev) ==
